@@ -72,6 +72,7 @@ mpn_inv_divappr_q_n(mp_ptr qp, mp_ptr np,
    if (UNLIKELY((lo == ~CNST_LIMB(0)) || (lo == ~CNST_LIMB(1)))) 
    {
 	   /* Special case, multiply out to get accurate quotient */
+	   MPIR_VERIF_HIT (MPIR_VERIF_INV_DIVAPPR_MULTIPLY_OUT);
 	   ret -= mpn_sub_1(qp, qp, dn, 1);
       if (UNLIKELY(ret == ~CNST_LIMB(0)))
          ret += mpn_add_1(qp, qp, dn, 1);
